@@ -7,6 +7,7 @@ import JsonbModel.Functions.Serde
 import JsonbModel.Spec.Order
 import JsonbModel.Proofs.NumOrd
 import JsonbModel.Driver.SerdeOps
+import JsonbModel.Proofs.SerdeRefine
 
 namespace Jsonb.Props
 open Jsonb JV Spec
@@ -36,6 +37,49 @@ theorem C19_number_roundtrip (n : Num) (h : n.WF) (hf : ∀ b, n = .float b → 
   | float b =>
     have := hf b rfl
     exact ⟨.float b, by simp [toSJ, this], by simp only [fromSJ, valEq, beq_iff_eq]; exact Num.cmp_refl _ h⟩
+
+/-! ### whole documents (unbounded: any nesting, any strings and keys, all integers) -/
+
+/-- **byte walker = tree conversion**: on the encoding of every good document with finite
+numbers `to_serde_json` returns exactly what `From<Value> for serde_json::Value` returns on the
+tree, which succeeds; `Int64(0)` / NaN canonicalisation of the codec does not matter -/
+theorem C19_walker_refines (v : JV) (hg : goodTop v = true) (hf : finiteJ v = true) :
+    Fn.toSerdeJson (encodeSpec v) = toSJ v ∧ toSJ v = .ok (toSJT v) ∧ toSJ (norm v) = toSJ v :=
+  toSerdeJson_refines v hg hf
+
+/-- outside the property (non-finite numbers) the byte walker returns an error where the tree
+conversion panics; first failure in the same place -/
+theorem C19_walker_total (v : JV) (hg : goodTop v = true) :
+    Fn.toSerdeJson (encodeSpec v) = relaxP (toSJ v) ∧
+    (finiteJ v = true → Fn.toSerdeJson (encodeSpec v) = .ok (toSJT v)) ∧
+    (finiteJ v = false → Fn.toSerdeJson (encodeSpec v) = .err "InvalidJson" ∧ ∃ site, toSJ v = .panic site) :=
+  toSerdeJson_total v hg
+
+/-- **same document an independent strict parser reads from the text rendering**: the strict
+RFC 8259 reader of C03 accepts `to_string`'s text, and the value it reads converts to the same
+serde value, is what the serde value converts back to, and equals the original document -/
+theorem C19_same_as_strict_parse (fmt) (v : JV) (hg : goodTop v = true) (hf : finiteJ v = true) (hok : fmtOK fmt v) :
+    ∃ text v' s, Fn.toStringDoc fmt false (encodeSpec v) = .ok text ∧ Strict.parse text = some v' ∧
+      Fn.toSerdeJson (encodeSpec v) = .ok s ∧ toSJ v' = .ok s ∧ fromSJ s = v' ∧ valEq v' v = true :=
+  toSerdeJson_text fmt v hg hf hok
+
+/-- **object-only variant**: members for an object, nothing for other kinds, agrees with the
+general one -/
+theorem C19_object_variant (v : JV) (hg : goodTop v = true) :
+    Fn.toSerdeJsonObject (encodeSpec v) = (match v with
+      | .obj _ => (Fn.toSerdeJson (encodeSpec v)).map some | _ => .ok none) ∧
+    (∀ kvs, v = .obj kvs → finiteJ v = true →
+      Fn.toSerdeJsonObject (encodeSpec v) = .ok (some (.obj (mapTK kvs)))) :=
+  toSerdeJsonObject_refines v hg
+
+/-- **mutually inverse**: Value → serde → Value gives an equal value (identical when integers
+are stored unsigned); serde → Value → serde gives the same serde value with members in key
+order (identical when they already are) -/
+theorem C19_value_roundtrip (v : JV) (hg : goodTop v = true) (hf : finiteJ v = true) :
+    ∃ s, toSJ v = .ok s ∧ valEq (fromSJ s) v = true := fromSJ_toSJ_inverse_good v hg hf
+theorem C19_serde_roundtrip (s : SJ) (h : s.numsOK = true) :
+    toSJ (fromSJ s) = .ok s.canon ∧ (s.sortedS = true → toSJ (fromSJ s) = .ok s) ∧
+      fromSJ s.canon = fromSJ s ∧ s.canon.canon = s.canon := toSJ_fromSJ_inverse s h
 
 example : (match Fn.toSerdeJson (encodeSpec (obj [([0x61], arr [num (.int 5), num (.int (-5)), num (.float 0x3ff8000000000000)])])) with
     | .ok s => Driver.showSJ s | _ => "") = "O1,K61,A3,P5,M-5,D3ff8000000000000" := by decide +kernel
